@@ -252,6 +252,15 @@ func equals(i *interpreter, t types.Type, x, y value) bool {
 		return x == y.(chan value)
 	case unsafe.Pointer:
 		return x == y.(unsafe.Pointer)
+	case uptr:
+		yu := y.(uptr)
+		if x.isNil() || yu.isNil() {
+			return x.isNil() == yu.isNil()
+		}
+		if x.p != nil || yu.p != nil {
+			return x.p == yu.p
+		}
+		return i.ptrAddr(x) == i.ptrAddr(yu)
 	case structure:
 		y := y.(structure)
 		tStruct := t.Underlying().(*types.Struct)
